@@ -3,7 +3,9 @@
    A path string is modelled by its shape: an anchoring (relative, absolute outside the root,
    absolute inside the root), a sequence of components and an optional trailing slash.
    Components: "a" existing file, "sub" existing directory, "new" missing name, ".." , ".",
-   "" (empty component = doubled slash), "long" (300 characters), "uni" (non-ASCII name).
+   "" (empty component = doubled slash), "long" (300 characters), "uni" (non-ASCII name),
+   "bs_up" / "bs_abs" (one component containing backslashes: sub\..\..\a.txt, \<outside>\a.txt - ordinary
+   file names on this platform, so they are NOT refused and must stay inside the root).
    Refused(op, s) is the guard every path-taking operation is meant to implement
    (rip-tools builtins resolve_path, rip-workspace safe_join / parse_rel_path / to_relative,
    tasks cwd).  The property itself is effect based and is evaluated by the harness on a
@@ -15,7 +17,8 @@ EXTENDS Integers, Sequences, FiniteSets, TLC
 
 CONSTANTS MaxComps, Comps, Ops
 
-Anchors == {"rel", "abs_out", "abs_in"}
+\* abs_sib: an absolute path into a SIBLING directory whose name starts with the root's name (<root>-private/...)
+Anchors == {"rel", "abs_out", "abs_in", "abs_sib"}
 VARIABLES shape, op
 Init == shape = [anchor |-> "rel", comps |-> <<>>, trail |-> FALSE] /\ op = "none"
 Grow == op = "none" /\ Len(shape.comps) < MaxComps
@@ -32,7 +35,7 @@ Empty(s) == s.comps = <<>> /\ s.anchor = "rel"
 \* the guard: absolute or parent-directory segments are refused.  Checkpoint creation accepts an absolute
 \* path that lies inside the root (it is stored relative to the root); a rewind takes an id, not a path.
 Refused(o, s) ==
-    CASE o = "ckpt_create" -> HasDotDot(s) \/ s.anchor = "abs_out"
+    CASE o = "ckpt_create" -> HasDotDot(s) \/ s.anchor \in {"abs_out", "abs_sib"}
       [] o = "ckpt_rewind" -> TRUE
       [] o = "apply_patch" -> s.anchor # "rel" \/ HasDotDot(s) \/ Empty(s)
       [] OTHER             -> s.anchor # "rel" \/ HasDotDot(s)
@@ -46,6 +49,6 @@ RECURSIVE MinDepth(_, _, _, _)
 MinDepth(cs, i, d, m) == IF i > Len(cs) THEN m
                          ELSE LET d2 == IF cs[i] = ".." THEN d - 1 ELSE IF cs[i] \in {".", ""} THEN d ELSE d + 1 IN
                               MinDepth(cs, i + 1, d2, IF d2 < m THEN d2 ELSE m)
-StaysInside(s) == s.anchor # "abs_out" /\ MinDepth(s.comps, 1, 0, 0) >= 0
+StaysInside(s) == s.anchor \notin {"abs_out", "abs_sib"} /\ MinDepth(s.comps, 1, 0, 0) >= 0
 GuardSound == op # "none" => (~Refused(op, shape) => StaysInside(shape))
 ========================================================================================
